@@ -169,11 +169,29 @@ Qed.
 (* ---------- C18: an element whose computed display is none yields nothing at all ---------- *)
 Lemma hidden_is_nothing : forall sd (udc : bool) (ist : list (text * text) -> res (list styledecl)) html name attrs kids p idx sty,
   (if udc then ist attrs else Ok []) = Ok sty ->
-  ws_val (c_display (cs_core (computed_style sd (mkanc name attrs idx :: p) sty))) <> None ->
+  ws_val (c_display (cs_core (computed_style sd (mkanc name attrs idx :: p) sty))) = Some true ->
   process sd udc ist (NElem html name attrs kids) p idx = Ok None.
 Proof.
   intros sd udc ist html name attrs kids p idx sty Hs Hd.
+  cbn [process]. rewrite Hs. cbn [bind]. rewrite Hd. reflexivity.
+Qed.
+
+(* companion: a display value other than none (Some false), or no display at all (None), does NOT
+   hide: e.g. a <br> is still produced *)
+Lemma not_hidden_br : forall sd (udc : bool) (ist : list (text * text) -> res (list styledecl)) name attrs kids p idx sty,
+  cps name = [98;114] ->
+  (if udc then ist attrs else Ok []) = Ok sty ->
+  ws_val (c_display (cs_core (computed_style sd (mkanc name attrs idx :: p) sty))) <> Some true ->
+  exists nd, process sd udc ist (NElem true name attrs kids) p idx = Ok (Some nd).
+Proof.
+  intros sd udc ist name attrs kids p idx sty Hn Hs Hd.
+  assert (H1 : names [[105;109;103]] name = false)
+    by (unfold names, is_ascii_str; rewrite Hn; reflexivity).
+  assert (H2 : names [[98;114]] name = true)
+    by (unfold names, is_ascii_str; rewrite Hn; reflexivity).
   cbn [process]. rewrite Hs. cbn [bind].
-  destruct (ws_val (c_display (cs_core (computed_style sd (mkanc name attrs idx :: p) sty)))) eqn:E;
-    [reflexivity|contradiction].
+  destruct (ws_val (c_display (cs_core (computed_style sd (mkanc name attrs idx :: p) sty)))) as [[|]|] eqn:E;
+    [contradiction| |].
+  all: rewrite H1, H2; cbn [negb bind andb];
+       destruct (fragment_of _ _ _); eexists; reflexivity.
 Qed.
